@@ -108,7 +108,11 @@ def mark_left_recursion(rules: Iterable[Rule]) -> list[Rule]:
                     break
 
             if not leaders:
-                leaders = set(scc)
+                # no rule lies on every cycle: a single leader would leave
+                # some cycle unguarded (unbounded recursion), so guard them all
+                for name in scc:
+                    rules[rule_index[name]].is_lrec = True
+                continue
 
             leader_name = min(leaders)
             rules[rule_index[leader_name]].is_lrec = True
